@@ -21,6 +21,11 @@ func init() {
 	register("C14", "arity families: parametric linear fragment (routing forced by pairwise distinct type parameters) and directive/member coverage", func(c *core.Ctx) {
 		Free(c, "R-FREE", libPkgs(c))
 		Arity(c, "R-ARITY", libPkgs(c))
+		// the typeclass TupleN families: routing is forced by types, use and order of the component instances is not
+		tc := []*packages.Package{c.Pkg("eq"), c.Pkg("ord"), c.Pkg("hash"), c.Pkg("monoid"), c.Pkg("clone")}
+		Rel(c, "R-REL", tc, func(p *packages.Package, fd *ast.FuncDecl, fn *types.Func) bool { return famRe.MatchString(fd.Name.Name) }, instanceParam, 800)
+		Mirror(c, "R-MIRROR", tc, typeclassBinMethods, false, nil, 150)
+		Lex(c, "R-LEX", []*packages.Package{c.Pkg("ord")})
 	})
 }
 
